@@ -100,6 +100,18 @@ def nonEmptyProperSubsets {α : Type} (s : List α) : Except Err (List (List α)
 def nonEmptySubsetsL {α : Type} (s : List α) : List (List α) :=
   (List.range s.length).flatMap (fun i => combs (i + 1) s)
 
+
+/-! ## iivsearch/algorithms.py: brute-force candidates -/
+
+/-- `_is_rv_block_structure(etas, partition, fixed_etas)`: `current` are the non-empty name
+    tuples of the distributions after removing fixed etas. -/
+def isRvBlockStructure (current : List (List Nat)) (P : List (List Nat)) : Bool :=
+  current.all (P.contains ·)
+
+/-- the block structures of the candidates of `td_exhaustive_block_structure`, in order -/
+def blockStructureCandidates (etas : List Nat) (current : List (List Nat)) : List (List (List Nat)) :=
+  (partitions etas).filter (fun P => !isRvBlockStructure current P)
+
 /-! ## helpers.all_combinations -/
 
 /-- A feature key `('KIND', arg, …)` with every component printed by `str`. -/
